@@ -12,90 +12,36 @@ because original blocks branch freely). Static part: `tablesOK`.
 namespace Scfg.C06
 open Scfg
 
-theorem get?_name (G : Hier) (n : Name) (b : Blk) (h : G.get? n = some b) : b.name = n := by
-  have := List.find?_some h
-  simpa using this
-
-theorem findHeadOf_mem (lvl : List Blk) (h : Name) (hh : findHeadOf lvl = some h) :
-    ∃ b ∈ lvl, b.name = h := by
-  unfold findHeadOf at hh
-  split at hh
-  · next x hx =>
-    have : x ∈ lvl.filter (fun b => !(lvl.any fun a => a.jt.contains b.name)) := by
-      rw [hx]; simp
-    simp only [Option.some.injEq] at hh
-    exact ⟨x, (List.mem_filter.mp this).1, hh⟩
-  · simp at hh
-
-theorem get?_isSome_of_mem (G : Hier) (b : Blk) (hb : b ∈ G) : (G.get? b.name).isSome := by
-  unfold Hier.get?
-  rw [List.find?_isSome]
-  exact ⟨b, hb, by simp⟩
-
-/-- The original graph never shows an error state. -/
-theorem orig_run_no_err (G : Hier) (hc : targetsClosed G = true) :
-    ∀ (ds : List Nat) (n : Name), (G.get? n).isSome →
-      ∀ o ∈ run (sysOrig G) (some n) ds, o.isErr = false := by
-  intro ds
-  induction ds with
-  | nil =>
-    intro n hn o ho
-    obtain ⟨b, hb⟩ := Option.isSome_iff_exists.mp hn
-    simp [run, sysOrig, hb] at ho
-    simp [ho, Obs.isErr]
-  | cons d ds ih =>
-    intro n hn o ho
-    obtain ⟨b, hb⟩ := Option.isSome_iff_exists.mp hn
-    simp only [run, List.mem_cons] at ho
-    rcases ho with ho | ho
-    · simp [sysOrig, hb] at ho
-      simp [ho, Obs.isErr]
-    · split at ho
-      · next hd =>
-        have hobs : (sysOrig G).obs (some n) = .blk n b.jts.length := by simp [sysOrig, hb]
-        have hstep : (sysOrig G).step (some n) d = b.jts[d]? := by simp [sysOrig, hb]
-        rw [hobs] at hd
-        simp only [Obs.arity] at hd
-        rw [hstep, List.getElem?_eq_getElem hd] at ho
-        have hbmem : b ∈ G := List.mem_of_find?_eq_some hb
-        have hall := List.all_eq_true.mp hc b hbmem
-        have ht := List.all_eq_true.mp hall (b.jts[d]) (List.getElem_mem hd)
-        exact ih _ ht o ho
-      · simp at ho
-
 /-- **C06, dynamic part.** If the check passes then on every path through the hierarchy —
-    walked by name — no branching block is ever reached with its variable unset (since the
-    latch last ran), out of its table's range, or with a table entry that is not a successor. -/
-theorem no_ctl_error (G H : Hier) (gtop htop : Name) (h : ctlOK G H gtop htop = true) :
-    ∀ ds, ∀ o ∈ run (sysName H true) (initName H htop true) ds, o.isErr = false := by
+    walked by name, for every decision sequence of any length — no branching block is ever
+    reached with its variable unset (since the latch last ran), out of its table's range, or
+    with a table entry that is not a successor. -/
+theorem no_ctl_error (H : Hier) (htop : Name) (h : ctlOK H htop = true) :
+    ∀ ds, ∀ o ∈ run (sysName H true) (initName H htop true) ds, o.isCtlErr = false := by
   simp only [ctlOK, Bool.and_eq_true] at h
-  obtain ⟨⟨⟨⟨hc, hi⟩, hs⟩, _⟩, _⟩ := h
-  intro ds o ho
-  have heq := simOK_sound _ _ _ _ _ hs ds
-  rw [← heq] at ho
-  obtain ⟨n, hn⟩ := Option.isSome_iff_exists.mp hi
-  rw [hn] at ho
-  obtain ⟨b, hb, hbn⟩ := findHeadOf_mem _ _ hn
-  have hbG : b ∈ G := (List.mem_filter.mp hb).1
-  have := get?_isSome_of_mem G b hbG
-  rw [hbn] at this
-  exact orig_run_no_err G hc ds n this o ho
+  exact reachOK_sound _ _ _ _ h.1.1
 
 /-- The same for the walk region by region. -/
-theorem no_ctl_error_region (G H : Hier) (gtop htop : Name) (h : ctlOK G H gtop htop = true) :
-    ∀ ds, ∀ o ∈ run (sysRegion H true) (initRegion H htop true) ds, o.isErr = false := by
+theorem no_ctl_error_region (H : Hier) (htop : Name) (h : ctlOK H htop = true) :
+    ∀ ds, ∀ o ∈ run (sysRegion H true) (initRegion H htop true) ds, o.isCtlErr = false := by
   simp only [ctlOK, Bool.and_eq_true] at h
-  obtain ⟨⟨⟨⟨hc, hi⟩, _⟩, hs⟩, _⟩ := h
-  intro ds o ho
-  have heq := simOK_sound _ _ _ _ _ hs ds
-  rw [← heq] at ho
-  obtain ⟨n, hn⟩ := Option.isSome_iff_exists.mp hi
-  rw [hn] at ho
-  obtain ⟨b, hb, hbn⟩ := findHeadOf_mem _ _ hn
-  have hbG : b ∈ G := (List.mem_filter.mp hb).1
-  have := get?_isSome_of_mem G b hbG
-  rw [hbn] at this
-  exact orig_run_no_err G hc ds n this o ho
+  exact reachOK_sound _ _ _ _ h.1.2
+
+/-- Reading an unset variable is a control error of the semantics (so the check is not
+    vacuous): `synthExec` reports it with the control flag `isCtlErr` recognises. -/
+theorem unset_is_ctl_error (consume : Bool) (b : Blk) (val : Val) (hb : b.kind.isBranching = true)
+    (hu : val.get? b.var = none) :
+    ∃ m, synthExec consume b val = .error (true, m) ∧ (Obs.err true m).isCtlErr = true := by
+  refine ⟨s!"ctl:unset {b.name} {b.var}", ?_, rfl⟩
+  simp [synthExec, hb, hu]
+
+/-- …and so is a value that is not a key of the block's table. -/
+theorem out_of_range_is_ctl_error (consume : Bool) (b : Blk) (val : Val) (x : Int)
+    (hb : b.kind.isBranching = true) (hv : val.get? b.var = some x)
+    (hk : b.tbl.find? (fun p => p.1 == x) = none) :
+    ∃ m, synthExec consume b val = .error (true, m) := by
+  refine ⟨s!"ctl:not-a-key {b.name} {b.var}={x}", ?_⟩
+  simp [synthExec, hb, hv, hk]
 
 /-- **C06, static part.** Every table entry names one of the block's own successors and every
     successor is named by at least one entry. -/
@@ -118,11 +64,11 @@ def exLatch : Blk where
   bes := ["h"]
   var := "v"
   tbl := [(0, "h"), (1, "x")]
-def okPart : Except String (Val × Option Nat) → Option (Val × Option Nat)
+def okPart : Except (Bool × String) (Val × Option Nat) → Option (Val × Option Nat)
   | .error _ => none
   | .ok r => some r
-def errPart : Except String (Val × Option Nat) → Option String
-  | .error e => some e
+def errPart : Except (Bool × String) (Val × Option Nat) → Option String
+  | .error e => some e.2
   | .ok _ => none
 example : errPart (synthExec true exLatch []) = some "ctl:unset l v" := by decide
 example : okPart (synthExec true exLatch [("v", 0)]) = some ([], some 1) := by decide
